@@ -295,6 +295,51 @@ func TestVerifRootAdmission(t *testing.T) {
 			}
 		}
 	}
+	// ---- a change of phase: a mixed warm-up, then a long period in which the hot set is only read (every sample of the
+	// hill climber is 100% hits: its step decays for hundreds of samples, the window may have grown to its maximum),
+	// then one-off insertions start.  The hot set (half the cache) must be retained again: the hit-ratio drop has to
+	// wake the climber up.  Several warm-ups, because the direction the climber happens to walk in when the quiet
+	// period starts decides where the window ends up.
+	for _, size := range []int{200, 1000} {
+		for trial := 0; trial < 8; trial++ {
+			kind := trial % 2
+			r := rand.New(rand.NewSource(seed0*104729 + int64(size)*13 + int64(trial)))
+			c := vmkCache(kind, size)
+			hot := size / 2
+			oneoff := 4_000_000 + trial*100_000_000
+			mix := func(n int, insertPct int) (int, int) {
+				hits, reads := 0, 0
+				for i := 0; i < n; i++ {
+					if r.Intn(100) < insertPct {
+						oneoff++
+						c.insert(oneoff)
+					} else {
+						ok := c.read(r.Intn(hot))
+						if i >= n*3/4 {
+							reads++
+							if ok {
+								hits++
+							}
+						}
+					}
+				}
+				return hits, reads
+			}
+			mix((20+7*trial)*size, 20+5*(trial%4)) // warm-up
+			mix(3500*size, 0)                       // about 350 samples of reads only
+			hits, reads := mix(600*size, 50)        // one-off insertions start
+			c.close()
+			ratio := float64(hits) / float64(reads)
+			nmeas++
+			if ratio < minHot {
+				minHot = ratio
+			}
+			fmt.Fprintf(w, "O 93 %d %d %d | %d\n", size, kind, trial, int(ratio*1000))
+			if ratio < 0.90 {
+				viol(fmt.Sprintf("C09: hot set of %d keys in a cache of %d (kind %d, warm-up %d): after a long read-only period one-off insertions started and the hot set's hit ratio stayed at %.3f over the last quarter of %d operations", hot, size, kind, trial, ratio, 600*size))
+			}
+		}
+	}
 	fmt.Fprintf(w, "# STATS measurements=%d min_hot_ratio_permille=%d min_gap_over_lru_permille=%d\n", nmeas, int(minHot*1000), int(minGap*1000))
 }
 
